@@ -13,6 +13,7 @@ import (
 	"strings"
 
 	"github.com/buzzfeed/sso/verifharness/reg"
+	"github.com/buzzfeed/sso/verifharness/world"
 )
 
 func main() {
@@ -46,6 +47,10 @@ func main() {
 	sum, err := f(a)
 	if err != nil {
 		fmt.Fprintln(os.Stderr, "harness:", err)
+		os.Exit(2)
+	}
+	if n, first := world.EnvTrouble(); n > 0 {
+		fmt.Fprintf(os.Stderr, "harness: the test environment was degraded during the run (%d log lines such as %q): results discarded\n", n, first)
 		os.Exit(2)
 	}
 	json.NewEncoder(os.Stdout).Encode(sum)
